@@ -195,8 +195,8 @@ func GenC02(r *hx.Rng, tier string, w io.Writer) {
 		if tier != "thorough" && count%6 != int(r.U64()%6) && count > 1 {
 			return // quick: a sixth of the orders, chosen by the seed
 		}
-		if tier == "thorough" && count%3 != int(r.Seed%3) && count > 1 {
-			return // thorough: all 8! orders, a third per seed (the tier runs three consecutive seeds)
+		if tier == "thorough" && count%9 != int(r.Seed%9) && count > 1 {
+			return // thorough: a ninth of the 8! orders per seed (nine consecutive seeds cover them all; the tier runs three)
 		}
 		g.reset(1)
 		for _, k := range shape {
@@ -206,6 +206,24 @@ func GenC02(r *hx.Rng, tier string, w io.Writer) {
 			g.emit(e)
 		}
 	})
+	if tier == "thorough" {
+		// and EVERY order of the smaller chain (720), on every seed: a complete enumeration
+		small := []int{1, 0, 1}
+		g.reset(1)
+		for _, k := range small {
+			g.produce(k)
+		}
+		sb := g.events()
+		permute(sb, func(p []ev) {
+			g.reset(1)
+			for _, k := range small {
+				g.produce(k)
+			}
+			for _, e := range p {
+				g.emit(e)
+			}
+		})
+	}
 	// random chains, orders with duplicates, restarts
 	n := 40
 	maxBlocks := 8
